@@ -21,6 +21,7 @@ import (
 
 	jsonMsg "github.com/fatedier/golib/msg/json"
 
+	"github.com/fatedier/frp/pkg/config/types"
 	v1 "github.com/fatedier/frp/pkg/config/v1"
 	"github.com/fatedier/frp/pkg/msg"
 	"github.com/fatedier/frp/pkg/util/log"
@@ -536,6 +537,8 @@ func codecExec(tok []string) string {
 		return codecNH(tok)
 	case "lane":
 		return codecLane(tok)
+	case "batch":
+		return codecBatch(tok)
 	case "sess":
 		return codecSess([]byte(unhx(tok[1])), []byte(unhx(tok[2])))
 	case "gold":
@@ -621,6 +624,8 @@ func codecServe(port string) {
 	cfg.Auth.Token = codecToken
 	f := false
 	cfg.Transport.TCPMux = &f
+	// sess streams carry generated NewProxy messages: whatever they ask for, the only port this frps may bind is 1
+	cfg.AllowPorts = []types.PortsRange{{Start: 1, End: 1}}
 	cfg.Complete()
 	svr, err := server.NewService(cfg)
 	if err != nil {
@@ -871,6 +876,10 @@ func codecGen(rng *rand.Rand, n int, emit func(string)) {
 		}
 		if i%16 == 9 {
 			emit(cdGenLane(rng))
+			continue
+		}
+		if i%32 == 5 {
+			emit(cdGenBatch(rng))
 			continue
 		}
 		if i%4 == 3 {
